@@ -75,6 +75,23 @@ func runC09(c *Ctx) {
 			}
 			nRead++
 			key := fmt.Sprintf("%s calls %s", p.FnName(fn), calleeName(cc))
+			if p.FnName(fn) == "common/amp.NewArmorDecoder" && calleeName(cc) == "(*io.PipeReader).Read" {
+				// table row: the pipe's only writer is decodeToWriter, which writes non-empty scanner tokens
+				// (verified by C10 O-7); an io.Pipe read returns n > 0 or an error for a non-empty write
+				okRow := false
+				if dec := p.Fn("common/amp", "decodeToWriter"); dec != nil {
+					okRow = true
+					for _, w := range callsIn(dec) {
+						if calleeName(w) == "(io.Writer).Write" {
+							if wc, _, ok := callResult(w.Common().Args[0]); !ok || calleeName(wc) != "(*bufio.Scanner).Bytes" {
+								okRow = false
+							}
+						}
+					}
+				}
+				c.check(okRow, rule1, key, p.instrPos(cc), "table row: one-byte read from an io.Pipe fed only with non-empty scanner tokens", "the exception row no longer holds: the pipe can receive an empty write")
+				continue
+			}
 			used, forwarded := false, false
 			if cc.Referrers() != nil {
 				for _, r := range *cc.Referrers() {
